@@ -15,11 +15,106 @@ def tag (model : String) (ub oof : Bool) (gen : String) : String :=
 def splay (l r u : List Nat) (plain : Nat) (model : String) : String :=
   let s := HCIcskphuff_splay H4.Gen.Cskphuff.TWICEMAX 0 (il l) (il r) (il u) plain
   tag model s.ub s.oof s!"{showIntList s.skphuff_info_left} {showIntList s.skphuff_info_right} {showIntList s.skphuff_info_up}"
+
+/-! `HCIcskphuff_encode` / `HCIcskphuff_decode` as TRANSLATED from cskphuff.c (they call the translated `HCIcskphuff_splay`), run beside
+    the model on the `enc` / `dec` T lines.  As the library does (`HCPcskphuff_write` / `_read` are called with pieces of the data), the
+    stream is handed to the translated function in pieces, the coder state `skphuff_info` (rows, `skip_pos`, `offset`) carried from one
+    call to the next; regions `io_out` / `io_in` are per call (the translated functions index them with `List` operations, so short
+    regions keep the run linear).  Fuel as in `H4.Props.C05SkpFn`: `length + 511` / `length + bits + 254`. -/
+structure CSt where
+  left : List (List Int)
+  right : List (List Int)
+  up : List (List Int)
+  pos : Int := 0
+  off : Int := 0
+
+/-- `HCIcskphuff_init`: `skip_size` fresh trees, lane 0, offset 0 -/
+def initSt (skip : Nat) : CSt :=
+  { left := List.replicate skip (il Tree.init.left.toList), right := List.replicate skip (il Tree.init.right.toList),
+    up := List.replicate skip (il Tree.init.up.toList) }
+
+def pairs : List Int → List (Nat × Nat)
+  | c :: d :: rest => (c.toNat, d.toNat) :: pairs rest
+  | _ => []
+
+/-- the `Hbitwrite(count, data)` calls of the translated encoder for `bs`, 128 bytes per call -/
+def encRun (skip : Nat) : Nat → CSt → List UInt8 → List (List (Nat × Nat)) → Except String (List (Nat × Nat))
+  | 0, _, _, acc => .ok acc.reverse.flatten
+  | f + 1, st, bs, acc =>
+    if bs.isEmpty then .ok acc.reverse.flatten else
+    let c := bs.take 128
+    let s := HCIcskphuff_encode (c.length + 511) st.pos st.up st.right st.left skip st.off c.length (c.map fun b => (b.toNat : Int)) []
+    if s.ub then .error "ub" else if s.oof then .error "oof" else if s.ret ≠ 0 then .error s!"ret={s.ret}" else
+    encRun skip f { left := s.skphuff_info_left, right := s.skphuff_info_right, up := s.skphuff_info_up, pos := s.skphuff_info_skip_pos,
+                    off := s.skphuff_info_offset } (bs.drop 128) (pairs s.io_out :: acc)
+
+/-- answer of a T line with the verdict of the cross-run: the model's answer itself when the translated function agrees, otherwise marked
+    with `GEN=…` (for a long answer in front - the DIFF report shows only the beginning of an answer - and reduced to
+    `@<index of the first byte that differs>:<12 bytes from there>(len=<bytes>)`) -/
+def mark (model g : String) : String :=
+  if model.length ≤ 100 then s!"{model} GEN={g}" else
+  let rec fd : List Char → List Char → Nat → Nat
+    | a :: as, b :: bs, i => if a == b then fd as bs (i + 1) else i
+    | _, _, i => i
+  let i := fd g.toList model.toList 0
+  s!"GEN=@{i / 2}:{String.ofList ((g.toList.drop (i - i % 2)).take 24)}(len={g.length / 2}) {model}"
+
+/-- bytes per `enc` line that go through the translated encoder (the translated functions work on `List`s, about 30 times slower than the
+    model's arrays: ~0.1 ms per byte); longer streams are cross-run up to this byte and the bit stream compared as a prefix -/
+def encCap : Nat := 4096
+/-- same for `dec` lines (decoding has no code-length-dependent paths beyond the descent loop; `enc` covers the deep-code region) -/
+def decCap : Nat := 256
+
+def isPrefix : List Bool → List Bool → Bool
+  | [], _ => true
+  | _ :: _, [] => false
+  | a :: as, b :: bs => a == b && isPrefix as bs
+
+/-- the translated encoder beside the model's answer for `enc <skip> <data>`: `raw` = the model's DFTAG_COMPRESSED bytes -/
+def enc (skip : Nat) (bs : List UInt8) (raw : List UInt8) : String :=
+  let model := toHex raw
+  let bs' := bs.take encCap
+  match encRun skip (bs'.length + 1) (initSt skip) bs' [] with
+  | .error e => mark model e
+  | .ok fs =>
+    if bs'.length == bs.length then
+      let g := toHex (H4.BitIO.pack fs (some false))
+      if g == model then model else mark model g
+    else if isPrefix (H4.Bits.fieldsBits fs) (H4.Bits.bytesBits raw) then model
+    else mark model (toHex (H4.BitIO.pack fs (some false)))
+
+/-- `n` bytes through the translated decoder, 16 bytes per call on a window of the unread bits: first `24 * 16` bits; if the call fails
+    for want of bits, `520 * 16` (a code of a well-formed tree has at most 512 bits), then everything left - so FAIL is reported only at
+    the real end of the input -/
+def decRun (skip : Nat) : Nat → CSt → List Int → Nat → List (List Int) → Except String (List Int)
+  | 0, _, _, _, acc => .ok acc.reverse.flatten
+  | f + 1, st, bits, n, acc =>
+    if n = 0 then .ok acc.reverse.flatten else
+    let m := min n 16
+    let run (win : List Int) := HCIcskphuff_decode (m + win.length + 254) st.pos st.left st.right st.up skip st.off m (List.replicate m 0) win 0
+    let s := run (bits.take (24 * m))
+    let s := if s.ret ≠ 0 ∧ !s.ub ∧ !s.oof then run (bits.take (520 * m)) else s
+    let s := if s.ret ≠ 0 ∧ !s.ub ∧ !s.oof then run bits else s
+    if s.ub then .error "ub" else if s.oof then .error "oof" else if s.ret ≠ 0 then .error "fail" else
+    decRun skip f { left := s.skphuff_info_left, right := s.skphuff_info_right, up := s.skphuff_info_up, pos := s.skphuff_info_skip_pos,
+                    off := s.skphuff_info_offset } (bits.drop s.io_pos.toNat) (n - m) (s.buf :: acc)
+
+/-- the translated decoder beside the model's answer `model` for `dec <skip> <n> <raw>`: the first `decCap` bytes -/
+def dec (skip n : Nat) (raw : List UInt8) (model : String) : String :=
+  let bits := (H4.Bits.bytesBits raw).map fun b => if b then (1 : Int) else 0
+  let n' := if model == "fail" then n else min n decCap
+  let g := match decRun skip (n' + 1) (initSt skip) bits n' [] with
+    | .error e => e
+    | .ok out => toHex (out.map fun v => UInt8.ofNat v.toNat)
+  let want := if n' = n then model else String.ofList (model.toList.take (2 * n'))
+  if g == want then model else mark model g
 end GenSkp
 
 /-- engine `skphuff`:
-    `enc <skip> <hex data>` => raw DFTAG_COMPRESSED bytes
-    `dec <skip> <n> <hex raw>` => the `n` decoded bytes (through the bit-id state machine) | fail
+    `enc <skip> <hex data>` => raw DFTAG_COMPRESSED bytes; model `compress` + the translated `HCIcskphuff_encode` (`GenSkp.enc`: its
+       `Hbitwrite` calls packed by the same `H4.BitIO.pack`)
+    `dec <skip> <n> <hex raw>` => the `n` decoded bytes (through the bit-id state machine) | fail; + the translated `HCIcskphuff_decode`
+       (`GenSkp.dec`) on the bits of `raw`
     `decb <skip> <n> <hex raw>` => same on the plain bit list (the function the round-trip theorem is about)
     `lens <skip> <hex data>` => `<maxbits> <maxwords> <totalbits>`: longest code, most words of the encoder's bit stack used by
        one code, length of the bit stream (computed from the model's `Hbitwrite` list; the engine measures them on a replica tree)
@@ -28,12 +123,12 @@ end GenSkp
 def stepSkpHuff (args : List String) : String :=
   match args with
   | ["enc", k, d] => match k.toNat?, parseHex d with
-    | some k, some bs => toHex (compress k bs)
+    | some k, some bs => GenSkp.enc k bs (compress k bs)
     | _, _ => "bad-op"
   | ["dec", k, n, d] => match k.toNat?, n.toNat?, parseHex d with
-    | some k, some n, some raw => match decompressIO k raw n with
+    | some k, some n, some raw => GenSkp.dec k n raw (match decompressIO k raw n with
       | some o => toHex o
-      | none => "fail"
+      | none => "fail")
     | _, _, _ => "bad-op"
   | ["decb", k, n, d] => match k.toNat?, n.toNat?, parseHex d with
     | some k, some n, some raw => match decompress k raw n with
